@@ -37,6 +37,10 @@ pub struct Reaction {
     pub next_phase: Option<u8>,
     pub append_log: Option<u8>,
     pub cmds: Vec<Cmd>,
+    /// The handler asks for its state mutably (`Cow::Owned`) even when the value stays the same.
+    /// Only generated when `SysKnobs::touch` is set (adapter transparency, C15): whether such a
+    /// step counts as "changing nothing" is not something the reference semantics take a side on.
+    pub touch: bool,
 }
 
 #[derive(Clone, Debug, PartialEq, Eq, Hash, Default)]
@@ -123,6 +127,8 @@ impl Actor for TableActor {
             let (new, cmds) = self.react(r, state, usize::from(id), Some(usize::from(src)));
             if let Some(new) = new {
                 *state.to_mut() = new;
+            } else if r.touch {
+                let _ = state.to_mut();
             }
             emit(cmds, o);
         }
@@ -133,6 +139,8 @@ impl Actor for TableActor {
             let (new, cmds) = self.react(r, state, usize::from(id), None);
             if let Some(new) = new {
                 *state.to_mut() = new;
+            } else if r.touch {
+                let _ = state.to_mut();
             }
             emit(cmds, o);
         }
@@ -143,6 +151,8 @@ impl Actor for TableActor {
             let (new, cmds) = self.react(r, state, usize::from(id), None);
             if let Some(new) = new {
                 *state.to_mut() = new;
+            } else if r.touch {
+                let _ = state.to_mut();
             }
             emit(cmds, o);
         }
@@ -264,6 +274,8 @@ pub struct SysKnobs {
     pub crashes: bool,
     pub kinds: Vec<NetKind>,
     pub identical_actors: bool,
+    /// Generate reactions that touch their state without changing it (see `Reaction::touch`).
+    pub touch: bool,
 }
 
 impl Default for SysKnobs {
@@ -275,6 +287,7 @@ impl Default for SysKnobs {
             crashes: true,
             kinds: vec![NetKind::Ordered, NetKind::NonDup, NetKind::Dup],
             identical_actors: false,
+            touch: false,
         }
     }
 }
@@ -327,6 +340,7 @@ fn gen_reaction(rng: &mut Rng, n: usize, k: &SysKnobs, phases: u8, msgs: u8, tim
         next_phase: if rng.pct(45) { Some(rng.below(phases as usize) as u8) } else { None },
         append_log: if rng.pct(25) { Some(rng.below(3) as u8) } else { None },
         cmds: gen_cmds(rng, n, k, msgs, timers, rands, in_msg),
+        touch: k.touch && rng.pct(30),
     }
 }
 
